@@ -28,7 +28,7 @@ BOUNDS = {
     "quick": dict(Ns=[8, 12, 15, 16, 32], nchan=[1, 2, 3], dtypes=["complex64", "complex128"]),
     "thorough": dict(Ns=[7, 8, 9, 12, 15, 16, 25, 32, 48], nchan=[1, 2, 3, 4], dtypes=["complex64", "complex128"]),
 }
-REFS = ["none", "center", "bottom", "top", "above", "below", "label"]
+REFS = ["none", "center", "bottom", "top", "above", "below", "label", "inf"]
 
 
 def describe(tier):
@@ -65,6 +65,8 @@ def exact_labels(z):
 def ref_of(z, kind):
     if kind == "none":
         return None
+    if kind == "inf":
+        return np.inf * u.MHz
     return {"center": z.center_freq, "bottom": z.min_freq, "top": z.max_freq, "above": z.max_freq + 2 * z.chan_bw,
             "below": z.min_freq - 2 * z.chan_bw, "label": z.channel_freqs[z.nchan // 2]}[kind]
 
@@ -80,7 +82,7 @@ def oracle_chirp(dmx, label, srx, N, refx, nyq_pos):
         phi = dispersion.chirp_phase_cycles(dmx, f, refx)
         H[j] = dft.cis(-phi)
         mag[j] = float(abs(phi))
-        sens[j] = 1.0 + (float(refx / abs(f - refx)) if f != refx else 0.0)
+        sens[j] = 1.0 + (0.0 if refx is None else (float(refx / abs(f - refx)) if f != refx else 0.0))
     return H, mag, sens
 
 
@@ -104,7 +106,7 @@ def grid_case(case, res):
         dmx = F(dmv)
         for refkind in REFS:
             ref = ref_of(base, refkind)
-            refx = hz(base.center_freq) if ref is None else hz(ref)
+            refx = hz(base.center_freq) if ref is None else (None if refkind == "inf" else hz(ref))
             sub = {"dm": dmv, "ref": refkind}
             # ---- (1) chirp arrays
             variants = [False, True] if N % 2 == 0 else [False]
@@ -209,6 +211,8 @@ def grid_case(case, res):
                                       f"[{sub2}]", case, sub2)
                     if start and (N - stop):
                         res.hits["cropped on both ends (reference inside band)"] += 1
+                    if refkind == "inf":
+                        res.hits["infinite reference frequency"] += 1
                     if refkind in ("above", "below"):
                         res.hits["reference outside the band"] += 1
                     # ---- supplied chirp == internal chirp
@@ -312,7 +316,7 @@ def main(argv=None):
         PID, gen_cases=gen_cases, check_case=check_case, describe=describe,
         required_hits=["chirp checked", "|phi| > 1000 cycles (reduction mod 1 matters)",
                        "block shorter than the sweep (empty result)", "cropped on both ends (reference inside band)",
-                       "reference outside the band", "wave packet moved by its delay", "DM then -DM"],
+                       "reference outside the band", "infinite reference frequency", "wave packet moved by its delay", "DM then -DM"],
         assumptions=["chirp is single precision by design; budget 8 eps32 + 2 pi |phi| 32 eps64 (1 + f_ref/|f - f_ref|) for the "
                      "float64 cancellation in 1/f_ref - 1/f", "Nyquist-bin frequency convention (+-sr/2) left open for even N",
                      "band-edge delays within 1e-9 of an integer leave the crop open"],
